@@ -8,3 +8,4 @@ import Tibc.Expect.Packet
 #print axioms Tibc.C05.mt_supply_conserved
 #print axioms Tibc.C05.mt_balance_le_supply
 #print axioms Tibc.C05.conservation_fails_under_relay_edit
+#print axioms Tibc.C05.escrow_unbacked_under_port_edit
